@@ -16,7 +16,8 @@ def default_formula(fn):
             src = [ast.unparse(s) for s in node.body]
             # which labels are counted as classes: the known ones only (`y[y >= 0]`), or every distinct value of `y`
             # (negative = unlabeled markers included — a defect the documented table rejects)
-            counted = {'num_classes = len(np.unique(y[y >= 0]))': 'known', 'num_classes = len(np.unique(y))': 'all'}
+            counted = {'num_classes = len(np.unique(y[np.asanyarray(y, dtype=int) >= 0]))': 'known', 'num_classes = len(np.unique(y[y >= 0]))': 'known',
+                       'num_classes = len(np.unique(y))': 'all'}
             if len(src) != 2 or src[0] not in counted or node.orelse:
                 raise Unsupported(f'n_constraints default: unexpected body {src}')
             classes_of = counted[src[0]]
